@@ -5,6 +5,8 @@ import (
 	"errors"
 	"fmt"
 	"io"
+	"os"
+	"syscall"
 
 	biscuit "github.com/biscuit-auth/biscuit-go/v2"
 )
@@ -14,7 +16,7 @@ func init() { runners["C20"] = runC20 }
 // C20: every fault point k of the supplied random source, on every operation
 // that draws randomness (Builder.Build, New, Append), in every failure style.
 func runC20(res *Result, rng *RNG, tier string, outDir string) {
-	res.Rule = "fault space enumerated completely: op in {Build, New, Append} x k in [0,40] bytes delivered before the source fails x style in {error, 1-byte reads, 7-byte reads, io.EOF, io.ErrUnexpectedEOF}; a case is non-trivial when the source fails strictly inside the 32-byte draw (0<k<32) or delivers enough (k>=32); distinct by (op,k,style)"
+	res.Rule = "fault space enumerated completely: op in {Build, New, Append} x k in [0,40] bytes delivered before the source fails x style in {error, 1-byte reads, 7-byte reads, io.EOF, io.ErrUnexpectedEOF, and TRANSIENT failures after which the source delivers again: EAGAIN, EINTR, an error with Temporary()/Timeout(), os.ErrDeadlineExceeded, a wrapped EAGAIN, a plain error, io.EOF}; a case is non-trivial when the source fails strictly inside the 32-byte draw (0<k<32) or delivers enough (k>=32); distinct by (op,k,style)"
 	res.Exhaustive = true
 	rootSeed := rng.Bytes(32)
 	priv := ed25519.NewKeyFromSeed(rootSeed)
@@ -57,11 +59,15 @@ func runC20(res *Result, rng *RNG, tier string, outDir string) {
 	parentSecret := twinC.Proof
 	orc.addPub(parentSecret)
 
+	wrappedAgain := fmt.Errorf("read /dev/hwrng: %w", syscall.EAGAIN)
 	styles := []struct {
-		name  string
-		chunk int
-		err   error
-	}{{"error", 0, errInjected}, {"read1", 1, errInjected}, {"read7", 7, errInjected}, {"eof", 0, io.EOF}, {"ueof", 3, io.ErrUnexpectedEOF}}
+		name   string
+		chunk  int
+		err    error
+		resume bool // the source delivers again after having reported the error once
+	}{{"error", 0, errInjected, false}, {"read1", 1, errInjected, false}, {"read7", 7, errInjected, false}, {"eof", 0, io.EOF, false}, {"ueof", 3, io.ErrUnexpectedEOF, false},
+		{"eagain-resume", 0, syscall.EAGAIN, true}, {"eintr-resume", 5, syscall.EINTR, true}, {"temporary-resume", 0, tempErr{}, true},
+		{"deadline-resume", 0, os.ErrDeadlineExceeded, true}, {"wrapped-eagain-resume", 0, wrappedAgain, true}, {"error-resume", 0, errInjected, true}, {"eof-resume", 0, io.EOF, true}}
 	ops := []string{"Build", "New", "Append"}
 
 	cf := NewCasesFile("Base Chain Corr")
@@ -72,6 +78,9 @@ func runC20(res *Result, rng *RNG, tier string, outDir string) {
 			for si, st := range styles {
 				data := rng.Bytes(k)
 				fr := &faultReader{data: data, chunk: st.chunk, failErr: st.err}
+				if st.resume {
+					fr.resume = rng.Bytes(96)
+				}
 				var rid *uint32
 				if (k+si)%3 == 0 {
 					rid = &rid7
